@@ -141,6 +141,10 @@ def run_property(prop, tier, replay=None):
             real.append(v)
     rep_dir = os.path.join(VERIF, 'reports', prop)
     os.makedirs(rep_dir, exist_ok=True)
+    if not os.environ.get('VERIF_REPO'):
+        for fn in os.listdir(rep_dir):
+            if fn.endswith('.json'):
+                os.unlink(os.path.join(rep_dir, fn))
     for v, k in known_hit:
         print('KNOWN-FINDING: property=%s %s [%s]' % (prop, k.get('what', v['detail']), v['site']))
     exit_code = 0
@@ -198,11 +202,12 @@ def run_property(prop, tier, replay=None):
         'wall_s': round(wall, 2),
         'violations': len(real),
     }
-    os.makedirs(os.path.join(VERIF, 'evidence'), exist_ok=True)
-    tmp = os.path.join(VERIF, 'evidence', '.%s.json.tmp%d' % (prop, os.getpid()))
-    with open(tmp, 'w') as f:
-        json.dump(ev, f, indent=1)
-    os.rename(tmp, os.path.join(VERIF, 'evidence', prop + '.json'))
+    if not os.environ.get('VERIF_NO_EVIDENCE'):
+        os.makedirs(os.path.join(VERIF, 'evidence'), exist_ok=True)
+        tmp = os.path.join(VERIF, 'evidence', '.%s.json.tmp%d' % (prop, os.getpid()))
+        with open(tmp, 'w') as f:
+            json.dump(ev, f, indent=1)
+        os.rename(tmp, os.path.join(VERIF, 'evidence', prop + '.json'))
     print('%s %s: %d instance evaluations over %d configuration(s), %d passed, %d known, %d violations (%.1fs)' % (
         prop, tier, len(all_results), len(configs), len(passes), len(known_hit), len(real), wall))
     return exit_code
